@@ -215,6 +215,7 @@ func (g *Gen) instr(st *State, ins ssa.Instruction) {
 			rs = append(rs, g.term(r))
 		}
 		g.rets = append(g.rets, retPoint{st: st.clone(), results: rs, prefix: len(g.sc.lines)})
+		g.pathPoints = append(g.pathPoints, pathPoint{label: "return:" + g.lastLine(x.Block()), pc: st.pc, prefix: len(g.sc.lines)})
 	case *ssa.If, *ssa.Jump:
 	case *ssa.Panic:
 		if g.ct == nil || g.ct.NoPanic {
